@@ -73,8 +73,8 @@ claim("C02", "Coq proof (decoded protected headers keep the received bytes at ev
       COMMON_NOTE, "DESIGN.md 7 (C02)")
 
 
-claim("C01", "Coq proof of panic-freedom / totality of the model (every index, remove, unwrap/expect, assert of the Rust code is an explicit Panic branch; decoders, byte entry points, encoders, helpers on decoded values) and of the protected-nesting bound, PARTIAL; runtime behaviour (stack, time, memory) explored by the harness on a 2 MiB thread",
-      "Theorems: every value-level decoder and every byte-level entry point (untagged/tagged) returns Ok or Err for every input - never Panic, never OutOfFuel (fuel sufficiency proved); every encoder is total on every in-memory value; on decoded messages the tbs/verify/MAC/decrypt helpers do not panic under their documented preconditions and panic exactly where documented otherwise; protected-header re-parsing is bounded by the budget read from the source (16, F1 repair). Partial by nature: stack depth per frame, allocation and wall time are not expressible in the model; they are explored by running exhaustive short inputs for all entry points, mutated structured inputs, CBOR nesting 254..300, declared-length bombs, protected-nesting depth up to 5000 (10^5 thorough) and inputs up to 1 MiB (16 MiB thorough) on a default-size thread, detecting panics, aborts and hangs.",
+claim("C01", "Coq proof of panic-freedom / totality of the model (every index, remove, unwrap/expect, assert of the Rust code is an explicit Panic branch; decoders, byte entry points, encoders, helpers on decoded values) of the protected-nesting bound, and of a linear work bound (at most 3|input|+1 parser steps on every input, tight) and frame-depth bound (256) for the byte parser via an instrumented copy proved equal to the model; PARTIAL: stack bytes per frame, allocation and wall time are runtime behaviour explored by the harness on a 2 MiB thread, with and without the std feature",
+      "Theorems: every value-level decoder and every byte-level entry point (untagged/tagged) returns Ok or Err for every input - never Panic, never OutOfFuel (fuel sufficiency proved); every encoder is total on every in-memory value; on decoded messages the tbs/verify/MAC/decrypt helpers do not panic under their documented preconditions and panic exactly where documented otherwise; protected-header re-parsing is bounded by the budget read from the source (16, F1 repair); the byte parser makes at most 3|l|+1 calls of its four mutually recursive functions on any input l (accepted or not, any fuel), at most three per consumed byte on acceptance, the factor 3 being attained, and never opens more than 256 nested frames. Partial by nature: stack depth per frame, allocation and wall time are not expressible in the model; they are explored by running exhaustive short inputs for all entry points, mutated structured inputs, CBOR nesting 254..300, declared-length bombs, protected-nesting depth up to 5000 (10^5 thorough) and inputs up to 1 MiB (16 MiB thorough) on a default-size thread, detecting panics, aborts and hangs.",
       COMMON_NOTE, "DESIGN.md 7 (C01), 8 (F1)")
 claim("C06", "Coq proof (for any builder state at creation time and any later state that keeps protected/payload/signature: encode, decode, verify hands the closure exactly the stored signature/tag/ciphertext and the bytes the creator was given; injectivity gives sensitivity) + builder-history correspondence with independent Python structures",
       "Theorems for all seven creating builders (Sign1 embedded/detached, Sign with signer index, Mac0, Mac, Encrypt0, Encrypt, recipient): if the creator was given tbs in state st and the message later keeps its protected header, payload and signature, then after to_value/from_value (and to_vec/from_slice, tagged or not, for wire-normal values) the verify/decrypt helper returns exactly f(stored signature, tbs); a failing fallible creator yields its error and no message; any change to context, protected headers, AAD or payload changes the bytes. In a second group of theorems (suffix _total) encoding and decoding success are conclusions: for every well-formed built message (T_bwf) the whole chain create, serialise, parse, verify/decrypt succeeds and returns f(stored, tbs); for Sign1 also the tbs computation and the builder step (sign1_builder_sign_then_verify_total). Implementation: generated builder histories with create calls, then encode (tagged/untagged), decode, verify with equal and perturbed AAD, compared with the model and with Python-computed structures.",
